@@ -554,7 +554,7 @@ class C24(C.Check):
             "input_distribution": {"configurations": len(groups), "corpus_cases": ncorp, "crash_chains": len(self.obs),
                                    "really_killed_chains": n_real, "by_mode": modes,
                                    "ops_per_run": [len(r["ops"]) for _, r in self.refs]},
-            "disagreements": len(bad), "exhaustive": "all crash points of each traced run",
+            "disagreements": len(bad), "exhaustive": False, "exhaustive_within": "all crash points of each traced run",
         })
         return bad
 
